@@ -1,3 +1,4 @@
+import MioModel.Lemmas.SendLoop
 import MioModel.Lemmas.Stream
 import MioModel.Props.C03
 /-! # C11 — Raw Tcp preserves the byte stream -/
@@ -87,5 +88,19 @@ theorem tcp_stream_through_node (chunks : List Bytes) (mode : Mio.Node.Mode) (c 
   rw [h, Mio.C03.filterMap_range_getElem?]
   refine ⟨(chunks.drop k).flatten, ?_⟩
   rw [← List.flatten_append, List.take_append_drop]
+
+/-- **The send loop never gives up.**  `WouldBlock` answers — any number of them, anywhere in the call —
+change neither the bytes written nor the status; and as long as the kernel reports no error the call
+does not return at all before everything is written (`none` = still looping): a peer that stops reading
+for any length of time cannot make `send()` return with part of the buffer on the wire. -/
+theorem tcpSend_never_gives_up (data : Bytes) (sched : List WAns) :
+    tcpSend data (sched.filter (fun a => a != .wouldBlock)) = tcpSend data sched ∧
+    ((∀ a ∈ sched, a ≠ WAns.error) →
+      (tcpSend data sched).status = none ∨ (tcpSend data sched).status = some .sent) :=
+  ⟨tcpSendLoop_wouldBlock_transparent data sched 0, tcpSendLoop_no_error data sched 0⟩
+
+/-! Non-vacuity: two partial writes with forty `WouldBlock`s in between. -/
+example : tcpSend [1, 2, 3] (.accept 1 :: List.replicate 40 .wouldBlock ++ [.accept 5]) =
+    { status := some .sent, wire := [1, 2, 3] } := by decide
 
 end Mio.C11
